@@ -221,9 +221,12 @@ def _render_members(model, members, cxx, ind):
             cur_access = m["access"]
             out.append(ind[:-2] + cur_access + ":")
         if "anon" in m:
-            out.append(ind + m["anon"] + " {")
+            # "vname": a *named* member whose type is an anonymous struct written in place, optionally cv-qualified
+            # (`const struct { int w; int h; } dims;`); without it, a C11 anonymous member
+            q = {"c": "const ", "v": "volatile "}.get(m.get("vcv"), "")
+            out.append(ind + q + m["anon"] + " {")
             out.extend(_render_members(model, m["members"], cxx, ind + "  "))
-            out.append(ind + "};")
+            out.append(ind + "}" + (" " + m["vname"] if m.get("vname") else "") + ";")
         else:
             d = decl(model, m["type"], m["name"], cxx)
             if m.get("bits") is not None:
